@@ -52,7 +52,7 @@ def gen_programs(rep, tier, families=None):
                 want += ["le=true,sp=,ap=,pl=,pc=", "le=false,sp=u8,ap=u32,pl=,pc="]
             if tag.endswith(":rep") or tag.startswith("dyn"):
                 want += ["le=true,sp=u64,ap=u64,pl=,pc="]
-            if tag.startswith(("fix", "meta")):
+            if tag.startswith(("fix", "meta", "match:char4")):
                 want += ["le=,sp=u64,ap=u64,pl=true,pc=0"]
             if tag.startswith(("ck", "len")):
                 want += ["le=true,sp=,ap=,pl=,pc="]
